@@ -104,7 +104,7 @@ TEXT = {
                 "timestamps, the inner getter is present/absent/erroring, the inner settable accepts or rejects and its "
                 "update succeeds or fails; after every wrapper update the recorded inner calls must be exactly the "
                 "terminal's combined read (actuator), the inner state bit-for-bit (encoder), or the value of a "
-                "stand-alone CommandPID fed the same (time, state, command) sequence (PID wrapper).",
+                "stand-alone CommandPID fed the same (time, state, command) sequence (PID wrapper). Plus periodic histories (every primitive word of up to 2-4 symbols (per engine, see evidence bounds) over the core alphabet repeated to 16-64 events, with at most one deviation) and long runs on both sides of 2^8 and 2^9 events.",
         "note": "Two states, two commands, irregular dyadic round spacing, PID initial time later than the first data.",
     },
     "C08": {
@@ -114,7 +114,7 @@ TEXT = {
                 "and Differential (4 trust modes): every subset of terminals wired to external terminals, every sequence of "
                 "3 (4) rounds for 2-terminal and 2 (3) for 3-terminal devices; after each update the own slots must equal the "
                 "projection of the pre-update reads, stamped with the newest contributing time; uninformed slots and "
-                "external slots bit-identical.",
+                "external slots bit-identical. Plus periodic histories (every primitive word of up to 2-4 symbols (per engine, see evidence bounds) over the core alphabet repeated to 16-64 events, with at most one deviation) and long runs on both sides of 2^8 and 2^9 events.",
         "note": "Two state triples, five timing options per terminal and round (newest, tie, stale; negative and positive times).",
     },
     "C13": {
@@ -123,7 +123,7 @@ TEXT = {
         "text": "Same harness as C08 with commands: after each update every device terminal and connected external terminal "
                 "must read a newest issued command with issuer's time and kind, value mapped by the path; differential "
                 "leaves command slots bit-identical. Chains: all 4^1..4^4 (4^5) device sequences x all 2^6 (2^8) "
-                "issuing-end sequences, ends and every intermediate terminal checked exactly.",
+                "issuing-end sequences, ends and every intermediate terminal checked exactly. Plus periodic histories (every primitive word of up to 2-4 symbols (per engine, see evidence bounds) over the core alphabet repeated to 16-64 events, with at most one deviation) and long runs on both sides of 2^8 and 2^9 events.",
         "note": "Two commands of different kinds; chain ratios are powers of two so the product is exact.",
     },
     "C15": {
@@ -134,48 +134,48 @@ TEXT = {
                 "on fresh real objects and compared after every operation with a ten-line model: last request = last "
                 "successful set; update forwards exactly the followed getter's present value; errors propagate; "
                 "get = Datum(now, history(now+offset)) with the offset rule of each constructor/set_delta/set_time. The "
-                "scripted history stamps its data with a different time than queried so that restamping is observable.",
+                "scripted history stamps its data with a different time than queried so that restamping is observable. Plus periodic histories (every primitive word of up to 2-4 symbols (per engine, see evidence bounds) over the core alphabet repeated to 16-64 events, with at most one deviation) and long runs on both sides of 2^8 and 2^9 events.",
         "note": "Two values, four clock steps (incl. negative and 1e12), two deltas, two set_time targets.",
     },
     "C12": {
-        "engine": "rrtk-mc c12-seqs + c12-deviations",
+        "engine": "rrtk-mc c12-seqs + c12-deviations + c12-periodic",
         "technique": "stateless bounded-exhaustive exploration of event histories (all 14^d histories incl. repeated timestamps and 1 ns steps, deviation-bounded long histories) on the real EWMA and moving-average streams (f32 and Quantity variants in lockstep) against a weighted-average reference model",
         "text": "Every history to depth 5 (6) over {P(dt,v): dt in {0,1ns,0.5s,3s}} + {N,E1} x windows {1ns,0.5s,2s,1h} and "
                 "smoothing {0,.25,.5,1}, plus 24/2 (64/3) long histories: no update panics; moving average equals the "
                 "time-weighted mean of the window (weights >=0, sum = window, asserted in the reference); EWMA equals "
-                "prev*(1-L)+new*L; convexity; first sample; absent ignored; variants agree.",
+                "prev*(1-L)+new*L; convexity; first sample; absent ignored; variants agree. Plus periodic histories (every primitive word of up to 2-4 symbols (per engine, see evidence bounds) over the core alphabet repeated to 16-64 events, with at most one deviation) and long runs on both sides of 2^8 and 2^9 events.",
         "note": "Windows, smoothing constants, values and steps from fixed alphabets; decreasing timestamps are outside the property.",
     },
     "C10": {
-        "engine": "rrtk-mc c10-seqs-exact + c10-seqs-broad + c10-deviations + c10-units",
+        "engine": "rrtk-mc c10-seqs-exact + c10-seqs-broad + c10-deviations + c10-units + c10-periodic",
         "technique": "stateless bounded-exhaustive exploration of sample/absent/error histories (all 18^d, all 14^d broad, deviation-bounded H/k) on the five real streams against rational-style reference models; exhaustive 7x7 unit grid",
         "text": "Integral, derivative and the three to-state converters: every history to depth 5 (6) over 16 present "
                 "symbols (4 intervals x 4 values) + N + E1 plus 24/2 (64/3) long histories; after each present sample the "
                 "output must equal trapezoid sums / backward differences applied once or twice, absent until 2 resp. 3 "
                 "samples, stamped with the newest sample, unit = input*s or input/s; to-state converters must panic "
-                "exactly on ill-dimensioned present samples; shift by -1e15/+11/+1e17 ns bit-identical.",
+                "exactly on ill-dimensioned present samples; shift by -1e15/+11/+1e17 ns bit-identical. Plus periodic histories (every primitive word of up to 2-4 symbols (per engine, see evidence bounds) over the core alphabet repeated to 16-64 events, with at most one deviation) and long runs on both sides of 2^8 and 2^9 events.",
         "note": "Values/intervals from fixed alphabets (1 us .. 1 h); non-uniform spacing and non-linear signals are in the "
                 "alphabet precisely because equal spacing hides rectangle-vs-trapezoid and first-vs-second difference slips.",
     },
     "C11": {
-        "engine": "rrtk-mc c11-seqs-set + c11-seqs-follow + c11-deviations",
+        "engine": "rrtk-mc c11-seqs-set + c11-seqs-follow + c11-deviations + c11-periodic",
         "technique": "stateless bounded-exhaustive exploration of event histories {sample, absent, error, set(6 commands), followed-command change} on the real CommandPID against a staged reference model, all three initial command kinds",
         "text": "All 12^6 (12^7 thorough) histories without following and 18^5 (18^6) with a followed command getter, x 3 "
                 "initial kinds, plus 24/2 (48/3) long histories; after every event (also after set) get() must equal the "
                 "reference: PID on the commanded component with kind-specific gains, output / integral / double integral, "
                 "absent for exactly 0/1/2 samples after start or reset, set(same) no-op, set(different) restarts, N "
-                "resets, E reported until next sample. Bit-exact on the dyadic alphabet.",
+                "resets, E reported until next sample. Bit-exact on the dyadic alphabet. Plus periodic histories (every primitive word of up to 2-4 symbols (per engine, see evidence bounds) over the core alphabet repeated to 16-64 events, with at most one deviation) and long runs on both sides of 2^8 and 2^9 events.",
         "note": "Two states, two intervals, six commands; gains distinct per kind so that a wrong selection shows.",
     },
     "C04": {
-        "engine": "rrtk-mc c04-seqs-exact + c04-seqs-broad + c04-deviations",
+        "engine": "rrtk-mc c04-seqs-exact + c04-seqs-broad + c04-deviations + c04-periodic",
         "technique": "stateless bounded-exhaustive exploration of input-event histories (all 12^d histories over an exact dyadic alphabet, all 14^d over a broad alphabet, all H-event histories within k deviations) on the real PIDControllerStream against a textbook reference model, with metamorphic (shift, power-of-two scale) and differential (composition from primitive streams) oracles",
         "text": "Every history up to depth 5 (7 thorough) over {P(dt,v),N,E1,E2} x 4 gain sets is executed on a fresh real "
                 "controller; after every present sample the output must equal kp*e+ki*I+kd*D of the samples since the "
                 "last reset, bit-exactly on the dyadic alphabet and within a derived forward-error bound on the broad "
                 "one; 24/2 (64/3) deviation-bounded long histories cover integral accumulation. Shift by -1e15/+7/+1e17 "
                 "ns must be bit-identical, scaling by 2^-3/2^4 exact, and the controller composed from the crate's own "
-                "difference/integral/derivative/product/sum streams must agree.",
+                "difference/integral/derivative/product/sum streams must agree. Plus periodic histories (every primitive word of up to 2-4 symbols (per engine, see evidence bounds) over the core alphabet repeated to 16-64 events, with at most one deviation) and long runs on both sides of 2^8 and 2^9 events.",
         "note": "Gains, setpoints, values and intervals from fixed alphabets (intervals 1 us .. 1 h). The controller's memory "
                 "is one previous sample plus the integral, so depth >= 3 reaches every distinct stage.",
     },
@@ -199,24 +199,24 @@ TEXT = {
                 "completely for pairs; payload values fixed.",
     },
     "C05": {
-        "engine": "rrtk-mc c05-seqs + c05-deviations + c05-freeze",
+        "engine": "rrtk-mc c05-seqs + c05-deviations + c05-freeze + c05-periodic + c05-freeze-periodic",
         "technique": "stateless bounded-exhaustive exploration of event histories on the real streams (all 5^d histories, d=8 quick / 10 thorough, plus all H-event histories within k deviations of the default stream) with differential oracles against fresh real streams",
         "text": "For each of 15 stateful stream variants every history over {P,P',N,E1,E2} up to the depth bound, and every "
                 "24/2 (48/3) deviation-bounded long history, is executed on a freshly built real stream; after every "
                 "event: no stale error, reset == fresh stream fed the suffix (bit equality), deleting ignored absent "
                 "events changes nothing, get() pure (input poisoned between calls; lazy-get run). Freeze: all 16^d "
                 "condition x input histories against the reference machine. Small-scope complete: the streams keep at "
-                "most three samples of memory, so depth 8 exceeds every distinct internal stage.",
+                "most three samples of memory, so depth 8 exceeds every distinct internal stage. Plus periodic histories (every primitive word of up to 2-4 symbols (per engine, see evidence bounds) over the core alphabet repeated to 16-64 events, with at most one deviation) and long runs on both sides of 2^8 and 2^9 events.",
         "note": "Trusted: harness reset-policy table, scripted inputs. Values from a two-element alphabet, clock +1 s "
                 "per event; numeric correctness is C04/C10/C11/C12's business, not this check's.",
     },
     "C09": {
-        "engine": "rrtk-mc c09-link-bfs + c09-read-values; thorough: harness/sr_terminals (stateright BFS cross-check)",
-        "technique": "explicit-state BFS over all reachable link configurations of 2..6 (thorough 8) real terminals x all connect/disconnect actions; exhaustive presence x timestamp-order enumeration for the read clause",
+        "engine": "rrtk-mc c09-link-bfs + c09-read-values + c09-unobserved-bursts; thorough: harness/sr_terminals (stateright BFS cross-check)",
+        "technique": "explicit-state BFS over all reachable link configurations of 2..6 (thorough 8) real terminals x all connect/disconnect actions; exhaustive presence x timestamp-order enumeration for the read clause; all periodic operation bursts (words of length <= 2 over 15 operations, 255..513 operations, thorough 2^16+-1) without intermediate reads against a link + slot model",
         "text": "Every reachable matching of n<=6 (8) terminals x every connect(i,j)/disconnect(i) is executed on real "
                 "terminals (state rebuilt by witness replay) and compared with the matching model; no panic, symmetric "
                 "links, exact post-conditions. Read clause: all 16 presence patterns x all weak timestamp orders x "
-                "linked/unlinked. Complete for the stated bounds; link logic has no data dependence so small n is "
+                "linked/unlinked; 5400 long unobserved operation bursts. Complete for the stated bounds; link logic has no data dependence so small n is "
                 "representative.",
         "note": "Trusted: rustc, the harness decoding of partners from state means (own states are distinct powers of two). "
                 "Bound: n<=6 quick, n<=8 thorough; values from a fixed dyadic alphabet.",
